@@ -98,7 +98,7 @@ CHECKS = {
             "params": {"quick": {"L": 2, "PFX": 3}, "thorough": {"L": 4, "PFX": 3}},
             "max_paths": {"quick": 60000, "thorough": 600000},
             "timeout": {"quick": "10m", "thorough": "60m"},
-            "covers": {"VerifC14Determinism": ["determined"], "VerifC14Reopen": ["created", "reopened", "open-failed", "second-create-with-directory-option"], "VerifC14Escape": ["accepted", "refused"]},
+            "covers": {"VerifC14Determinism": ["determined"], "VerifC14Reopen": ["created", "reopened", "open-failed", "second-create-with-directory-option", "trailing-slash-spelling"], "VerifC14Escape": ["accepted", "refused"]},
         }, {
             "pkg": ODB, "funcs": ["VerifC14Injective"],
             "params": {"quick": {"L": 1}, "thorough": {"L": 2}},
@@ -118,6 +118,7 @@ CHECKS = {
             "covers": {"VerifC14AddressRoundTrip": ["parsed", "refused"]},
         }],
         "assumptions": [
+            "spellings: the printed address with a trailing slash, opened with Create:true as the typed helpers do, opens the SAME database or is refused, and parses to the same root and path",
             "the reused options value is also used to OPEN a database of another type and write list (created with fresh values): the opened store has the recorded type and write list",
             "real orbitDB instances (newOrbitDB, DetermineAddress, Create, Open, createStore, haveLocalData, addManifestToCache), the real manifest code, acutils, the real ipfs access controller Save/Load, address.Parse/IsValid, the real path.Join/Clean and the real cache manager (cacheleveldown) over a disk model",
             "name = symbolic string of length 0..L over ALL byte values; type in {eventlog, keyvalue, docstore}; explicit write list of 1..3 ids (symbolic) or none; two peers with different identities, peer ids and directories; plus names of the shape <3 symbolic bytes> + <root of another database> + '/v'",
@@ -220,8 +221,12 @@ CHECKS = {
         }, {
             "pkg": BS, "funcs": ["VerifC10ForgedInBatch"],
             "covers": {"VerifC10ForgedInBatch": ["mixed-batch-processed", "genuine-head-alongside", "re-announced"]},
+        }, {
+            "pkg": BS, "funcs": ["VerifC10Before"],
+            "covers": {"VerifC10Before": ["tampered-readdressed", "non-writer", "bad-ancestor", "rejected-later", "restarted"]},
         }],
         "assumptions": [
+            "BEFORE clause (VerifC10Before): 1..2 valid entries are replicated (optionally a local write too), then an announcement arrives whose fetched log the join refuses (tampered re-addressed copy with the genuine identity block / non-writer / writer on a non-writer's ancestor); the earlier entries stay in log and view and are reloaded after a restart",
             "forged author inside a batch (VerifC10ForgedInBatch): writers w1 and w2; a forged-author entry naming w1's id (made by w2 with its own key), linked by a valid entry of w2 and linking on to w1's genuine head, so that it is judged before w1's 1..2 genuine entries of the same batch; w1's head is announced alongside or only afterwards; the genuine entries are in log and view at the latest after the re-announcement",
             "replica with an explicit write list; a two-head announcement mixing a valid head with a rejected one (non-writer author / other database / wrong claimed address / writer's entry on top of a non-writer's ancestor / writer's id with a signature that does not verify) at either position, or the rejected head alone BEFORE the valid one is announced; the rejected head keeps its own address or CLAIMS the valid entry's address (the claimed address of an announced head is chosen by the sender); through the real Sync -> replicator -> fetcher -> main loop -> replicationLoadComplete -> Join",
             "then an honest re-announcement of the valid head and a newer valid head; quiescence decided from the scheduler state (all threads blocked), not from a timeout",
@@ -289,8 +294,12 @@ CHECKS = {
         }, {
             "pkg": ODB, "funcs": ["VerifC09CloseTwice"],
             "covers": {"VerifC09CloseTwice": ["closed-twice", "closed-then-dropped", "dropped-then-closed", "B-still-works"]},
+        }, {
+            "pkg": ODB, "funcs": ["VerifC09LateJoin"],
+            "covers": {"VerifC09LateJoin": ["peer-joined-B-after-announcements-of-A"]},
         }],
         "assumptions": [
+            "messages a store builds (VerifC09LateJoin): a peer opens database A, A is written 1..3 more times (announcements), then the peer opens database B: every publication and direct message carries only heads of the database it names",
             "repeated close (VerifC09CloseTwice): database A is closed twice / closed then dropped / dropped then closed while database B of the same instance stays open: a write to B still emits its write event, reaches the peer, B loads, B's status describes its log",
             "shared network layer (VerifC09SlowConnect): both stores of one instance ask the instance's one direct channel to connect to the same peer while connecting takes time (gate in the network stand-in); database A is closed or dropped meanwhile; database B's heads still reach the peer",
             "two databases opened by one process: two real BaseStores initialised by InitBaseStore on ONE shared event bus, one pubsub (topics per address, each with a peer so that publications are not suppressed) and one direct channel; replication enabled",
@@ -448,8 +457,13 @@ CHECKS = {
             "pkg": BS, "funcs": ["VerifC15Sequence"],
             "params": {"quick": {"T": 4}, "thorough": {"T": 6}},
             "covers": {"VerifC15Sequence": ["grew-by-writes", "grew-by-load-more", "loaded-again"]},
+        }, {
+            "pkg": KV, "funcs": ["VerifC15View"],
+            "params": {"quick": {"T": 2}, "thorough": {"T": 3}},
+            "covers": {"VerifC15View": ["loaded-with-limit"]},
         }],
         "assumptions": [
+            "view after a limited load (VerifC15View, key-value store): two writers with T distinct keys each, local + remote cached heads, restart, Load(n) for n in 1..2T: min(n,total) entries in the log and All / Get equal the replay of exactly those",
             "load sequences on one open store (VerifC15Sequence): persisted single-writer log of T entries; Load(n), n in 1..T; then nothing, 1..2 local writes, or LoadMoreFrom of the older history; then Load(m), m in 1..held; exactly the m most recent held entries are visible in order (a later load with a limit LARGER than what the store holds is outside: the unchanged code fetches nothing below entries it already holds - observed, documented in DESIGN)",
             "persisted log built by real AddOperation calls (single-writer chain of T entries), by two writers with a real Sync (local + remote cached heads), or by replicating another writer's chain and then writing again (stale cached remote heads below a newer local head); then Close and a fresh store over the same cache and block store",
             "Load's per-head goroutines run under every schedule with at most P preemptions (switch or stall) at visible operations",
@@ -517,8 +531,12 @@ CHECKS = {
             # interpreter their methods are replaced by scripted stand-ins; natively there is nothing to
             # script, so paths of this group are neither validated nor replayed natively
             "validate": False, "native_replay": False,
+        }, {
+            "pkg": OOO, "funcs": ["VerifC20AfterClose"],
+            "covers": {"VerifC20AfterClose": ["calls-after-close-returned"]},
         }],
         "assumptions": [
+            "lifecycle of the pairwise channel object (VerifC20AfterClose): Connect, a payload delivered, Close, then any two of Connect / Send / Close: every call returns, nothing is delivered after Close, no monitor is left (the scripted subscription's Close makes a pending Next return, as the real one)",
             "membership: every sequence of S duplicate-free snapshots over P peers whose ids are symbolic pairwise-distinct strings, returned by a scripted coreiface PubSub().Peers()",
             "messages: M scripted messages, each from the local peer or a remote one, 1 symbolic byte body; the real WatchMessages / monitorTopic goroutines run in the interpreter",
             "pairwise channel registration: two overlapping Connect calls for the same peer under every schedule with at most P preemptions (the subscribe call is a preemption point); timers run on virtual time (they fire only when nothing else can run)",
@@ -549,9 +567,10 @@ CHECKS = {
         }, {
             "pkg": BS, "funcs": ["VerifC12RepeatedHeads"],
             "params": {"quick": {"R": 20}, "thorough": {"R": 40}},
-            "covers": {"VerifC12RepeatedHeads": ["one-head-repeated", "many-distinct-heads", "abusive-message-handled"]},
+            "covers": {"VerifC12RepeatedHeads": ["one-head-repeated", "many-distinct-heads", "abusive-message-handled", "with-tampered-heads"]},
         }],
         "assumptions": [
+            "the abusive message may also hold tampered copies (first / last / all of its heads): Sync still returns, nothing tampered is merged, later valid traffic is handled",
             "well-formed abusive heads messages (VerifC12RepeatedHeads): one genuine head listed R times, or R distinct genuine heads of one chain, in ONE message; Sync returns, each entry is merged once, a later valid message is handled",
             "raw direct-channel stream = ANY byte string of length 0..B (every byte symbolic): every varint incl. 10-byte overflowing ones and every declared length; real bufio.Reader, binary.ReadUvarint, io.ReadFull are interpreted",
             "declared lengths above 16 are explored up to the size check and the allocation only (recorded cut); every allocation sized by the declared length is an assertion `size <= DelimitedReadMaxSize` decided by the solver over all prefixes (vstub.AllocLimit), replayed natively by measuring the bytes allocated",
